@@ -75,6 +75,15 @@ def get_chunk_dtype_transformer(input_dtype, output_dtype, warn=True):
         logger.warning("Values will be clipped to the range [%s, %s]",
                        output_min, output_max)
 
+    # The upper clipping bound may not be representable in a floating-point
+    # work type (2**64 - 1 becomes 2.0**64 in float64); casting that value to
+    # the output type wraps around to 0, so it is patched after the cast.
+    saturate_top = (
+        clip_values
+        and np.issubdtype(work_dtype, np.floating)
+        and int(work_dtype.type(output_max)) > output_max
+    )
+
     def chunk_transformer(chunk, preserve_input=True):
         assert np.can_cast(chunk.dtype, input_dtype, casting="equiv")
         if round_to_nearest or clip_values:
@@ -90,6 +99,11 @@ def get_chunk_dtype_transformer(input_dtype, output_dtype, warn=True):
                 np.rint(chunk, out=chunk)
             if clip_values:
                 np.clip(chunk, output_min, output_max, out=chunk)
+        if saturate_top:
+            with np.errstate(invalid="ignore"):
+                result = chunk.astype(output_dtype, casting="unsafe")
+            result[chunk >= work_dtype.type(output_max)] = output_max
+            return result
         return chunk.astype(output_dtype, casting="unsafe")
 
     return chunk_transformer
